@@ -112,3 +112,25 @@ def kdtree_qbp(interp, sv, args, kwargs, node):
         s.kind_hint = "list"
         return s
     return interp.born(VList(SymSeq(nq, at, None), "ndarray"))
+
+
+@extern("scipy.spatial.distance.squareform")
+def squareform(interp, args, kwargs, node):
+    """squareform(M, checks=False) of a square 2-D array: the condensed vector with v[m*i + j - (i+2)(i+1)/2] = M[i, j] for i < j
+    (upper triangle, row-major); squareform(v) of a vector: the symmetric matrix with zero diagonal."""
+    from .ext_numpy import VMatrix
+    M = args[0]
+    ctx = interp.ctx
+    short = (interp.current_qualname or "").replace("pyrepseq.", "")
+    line = getattr(node, "lineno", "?")
+    if isinstance(M, VMatrix):
+        ctx.oblige(f"{short}/call-pre[squareform.square]@L{line}", M.nrows == M.ncols, kind="call-pre", line=line)
+        m = M.nrows
+        ctx.assumed.add("extern:scipy squareform(square matrix, checks=False) is the row-major upper triangle in condensed order")
+        f = ctx.fresh_fun("condensed", z3.IntSort(), z3.RealSort())
+        i, j = z3.Int("i!sq"), z3.Int("j!sq")
+        ctx.assume(z3.ForAll([i, j], z3.Implies(z3.And(0 <= i, i < j, j < m),
+                                                f(m * i + j - ((i + 2) * (i + 1)) / 2) == to_real(M.cell(i, j)))))
+        from . import vec
+        return interp.born(VList(SymSeq((m * (m - 1)) / 2, lambda k: VReal(f(k), True), vec.T_RealT(np=True)), "ndarray"))
+    return interp.born(E.opaque(interp, "scipy.spatial.distance.squareform", args, kwargs, "ndarray"))
